@@ -1,23 +1,43 @@
-import RbModel.Src
+import RbModel.ArrL.Syntax
 import RbModel.Instr
+import RbModel.Core
 /-!
-Model of the code generator for the core language
-(`rusty_basic/src/instruction_generator/{main, statement, expression, loops, if_block,
-select_case, print, calls, dim}.rs` restricted to the constructs of `Src.SStmt`).
+# RbModel.ArrL.Compile — model of the code generator with arrays of scalars (property C04, phase A)
 
-`compile` emits a list of *core instructions* `CInstr` with absolute, already resolved branch
-addresses (the real generator emits named labels and resolves them in a second pass; here the
-address of every label is computed structurally, and the label names are emitted too so that the
-list can be compared with the real one instruction for instruction).  `normalise` maps the real
-instruction list (`RbModel.Instr`, read from `generate_instructions`) into the same vocabulary.
-The correspondence check demands `compile p = normalise (real list)` for every core program.
+`RbModel.Core` (the generator model of C01) extended to the constructs of `ArrL.SStmt`:
+`rusty_basic/src/instruction_generator/{main, statement, expression, calls, loops, if_block, select_case, print,
+dim}.rs` restricted to them.  What is new (everything else is C01's generator, copied):
+
+    element path  ⟦a(i1,…,ik)⟧path @p  =  VarPathName a @p
+                                          ( PushAToValueStack · ⟦i_j⟧ [Cast %] · VarPathIndex · PopValueStackIntoA ) @i_j.pos   for every j
+      (`generate_path_instructions`: register A — the value to be stored, when the path is an assignment target — is
+       saved on the value stack around every subscript; `Cast(%)` iff the subscript's static type is not INTEGER)
+    element read        ⟦a(i…)⟧path · CopyVarPathToA · PopVarPath                         @p
+    element assignment  ⟦e⟧ [Cast t] · ⟦a(i…)⟧path @stmt · CopyAToVarPath @stmt          (right-hand side FIRST)
+    DIM a(l TO u, …)    BeginCollectArguments @p · ( ⟦l⟧ PushUnnamedByVal @l.pos | LoadIntoA 0 · PushUnnamedByVal @p ) ·
+                        ⟦u⟧ PushUnnamedByVal @u.pos … · AllocateArrayIntoA t · VarPathName a · CopyAToVarPath   @p
+      (the bounds are NOT cast by an instruction: `AllocateArrayIntoA` converts them)
+    LBOUND(a[, d]) @p   BeginCollectArguments @p · VarPathName a · CopyVarPathToA · PushUnnamedByRef @ap · [⟦d⟧arg] ·
+                        PushStack · BuiltInFunction(LBound) @p · EnqueueToReturnStack 0 @ap · [EnqueueToReturnStack 1 @d.pos] ·
+                        StashFunctionReturnValue LBound% · PopStack @p ·
+                        DequeueFromReturnStack · VarPathName a · CopyAToVarPath @ap · [write-back of d] ·
+                        UnStashFunctionReturnValue @p
+      (the whole array travels through register A, the argument list, the by-reference queue and back into the
+       variable; `d` is by reference when it is a variable or an array element: `Expression::is_by_ref`)
+    READ a(i…)          … ⟦a(i…)⟧path · CopyVarPathToA · PushUnnamedByRef @target … BuiltInSub(Read) …
+                        DequeueFromReturnStackWithPath · CopyAToVarPath @target
+      (the path resolved before the call is queued with the value and restored for the store)
+
+Branch targets are absolute addresses computed structurally, label names are emitted too, and `normalise` maps the
+real instruction list into the model's vocabulary (`VarPathName` becomes `varPath x` or `arrPath a` through the two
+name tables of the serialiser).  The tie demands `compile p = normalise (real list)`.
 -/
 set_option linter.unusedVariables false
 
-namespace RbModel.Core
-open RbModel RbModel.Num RbModel.Ast RbModel.Src
+namespace RbModel.ArrL.Compile
+open RbModel RbModel.Num RbModel.ArrL
+open RbModel.Ast (Pos)
 
-/-- core instructions: variables are slots, literals are `Val`s, branch targets are addresses -/
 inductive CInstr where
   | loadA (v : Val)
   | copyAToB | copyAToC | copyAToD | copyCToB | copyDToA | copyDToB
@@ -25,28 +45,50 @@ inductive CInstr where
   | negateA | notA
   | cast (t : Ty)
   | pushA | popA
-  | varPath (x : Nat) | copyVarPathToA | popVarPath | copyAToVarPath
+  /-- `VarPathName` of a scalar variable (slot) -/
+  | varPath (x : Nat)
+  /-- `VarPathName` of an array (array number) -/
+  | arrPath (a : Nat)
+  /-- `VarPathIndex`: append the INTEGER in A to the path on top of the path stack -/
+  | pathIndex
+  | copyVarPathToA | popVarPath | copyAToVarPath
   | label (name : String)
   | jump (a : Nat) | jumpIfFalse (a : Nat)
   | pushRegs | popRegs
   | throwZeroStep
   | halt
   | allocate (t : Ty)
+  /-- `AllocateArrayIntoA(BuiltIn t)` -/
+  | allocArr (t : Ty)
   | printSetPrinter | printSetFormat | printComma | printSemicolon | printValue | printEnd
   | beginArgs | pushByVal | pushByRef | pushStack | popStack
   | builtInData | builtInRead
+  /-- `BuiltInFunction(LBound)` (`false`) / `BuiltInFunction(UBound)` -/
+  | builtInBound (upper : Bool)
   | enqueue (i : Nat) | dequeue
+  /-- `DequeueFromReturnStackWithPath` -/
+  | dequeuePath
+  /-- `StashFunctionReturnValue(LBound%)` / `(UBound%)` -/
+  | stashBound (upper : Bool)
+  | unStash
   deriving DecidableEq, Inhabited
 
 abbrev Code := List (CInstr × Pos)
 
-/-- `format!("_{}_{:?}{}", prefix, pos, suffix)` -/
-def labelName (pref : String) (p : Pos) (suffix : String) : String :=
-  "_" ++ pref ++ "_Position { row: " ++ toString p.row ++ ", col: " ++ toString p.col ++ " }" ++ suffix
+abbrev labelName := _root_.RbModel.Core.labelName
+abbrev maxPos := _root_.RbModel.Core.maxPos
 
-/-! ### expressions: `generate_expression_instructions` -/
+/-! ### expressions: `generate_expression_instructions`, `generate_path_instructions` -/
 
-def compileExpr : Ast.Expr → Code
+/-- `generate_un_stash_by_ref_args` for one by-reference argument: a variable is stored through its name, an array
+element through the path that was queued with the value -/
+def writeBackOf : Expr → List (CInstr × Pos)
+  | .var x _ q => [(.dequeue, q), (.varPath x, q), (.copyAToVarPath, q)]
+  | .elem _ _ _ q => [(.dequeuePath, q), (.copyAToVarPath, q)]
+  | _ => []
+
+mutual
+def compileExpr : Expr → Code
   | .lit v p => [(.loadA v, p)]
   | .var x _ p => [(.varPath x, p), (.copyVarPathToA, p), (.popVarPath, p)]
   | .un .neg e p => compileExpr e ++ [(.negateA, p)]
@@ -55,14 +97,59 @@ def compileExpr : Ast.Expr → Code
     compileExpr l ++ [(.pushA, p)] ++ compileExpr r ++ [(.copyAToB, p), (.popA, p), (.bin op, p)] ++
       (if op = .divide then [(.cast t, p)] else [])
   | .paren e _ => compileExpr e
+  | .elem a idx _ p => [(.arrPath a, p)] ++ compileIdx idx ++ [(.copyVarPathToA, p), (.popVarPath, p)]
+  | .bound up a _ ap p =>
+    [(.beginArgs, p), (.arrPath a, ap), (.copyVarPathToA, ap), (.pushByRef, ap),
+     (.pushStack, p), (.builtInBound up, p), (.enqueue 0, ap), (.stashBound up, p), (.popStack, p),
+     (.dequeue, ap), (.arrPath a, ap), (.copyAToVarPath, ap), (.unStash, p)]
+  | .boundD up a _ ap d p =>
+    [(.beginArgs, p), (.arrPath a, ap), (.copyVarPathToA, ap), (.pushByRef, ap)] ++
+     -- `generate_push_unnamed_args_instructions` for the dimension argument: by reference (the code of the
+     -- expression without its final `PopVarPath`) when it is a variable or an element, else by value
+     (if d.isRef then (compileExpr d).dropLast ++ [(.pushByRef, d.pos)] else compileExpr d ++ [(.pushByVal, d.pos)]) ++
+     [(.pushStack, p), (.builtInBound up, p), (.enqueue 0, ap)] ++
+     (if d.isRef then [(.enqueue 1, d.pos)] else []) ++
+     [(.stashBound up, p), (.popStack, p), (.dequeue, ap), (.arrPath a, ap), (.copyAToVarPath, ap)] ++
+     writeBackOf d ++ [(.unStash, p)]
+/-- the subscripts of a path: `PushAToValueStack · ⟦i⟧ [Cast %] · VarPathIndex · PopValueStackIntoA` each -/
+def compileIdx : Exprs → Code
+  | .nil => []
+  | .cons e rest =>
+    [(.pushA, e.pos)] ++ compileExpr e ++ (if e.ty = .int then [] else [(.cast .int, e.pos)]) ++
+      [(.pathIndex, e.pos), (.popA, e.pos)] ++ compileIdx rest
+end
 
 /-- `generate_expression_instructions_casting` -/
-def compileExprTo (e : Ast.Expr) (target : Ty) : Code :=
+def compileExprTo (e : Expr) (target : Ty) : Code :=
   compileExpr e ++ (if e.ty = target then [] else [(.cast target, e.pos)])
 
 def storeVar (x : Nat) (p : Pos) : Code := [(.varPath x, p), (.copyAToVarPath, p)]
 
 def loadVar (x : Nat) (p : Pos) : Code := [(.varPath x, p), (.copyVarPathToA, p), (.popVarPath, p)]
+
+/-- the bound arguments of a DIM -/
+def compileDims (p : Pos) : Dims → Code
+  | .nil => []
+  | .cons lo hi rest =>
+    (match lo with
+     | none => [(.loadA (.int 0), p), (.pushByVal, p)]
+     | some e => compileExpr e ++ [(.pushByVal, e.pos)]) ++
+      compileExpr hi ++ [(.pushByVal, hi.pos)] ++ compileDims p rest
+
+def sizeDims (dims : Dims) : Nat := (compileDims ⟨0, 0⟩ dims).length
+
+/-- READ: the targets as by-reference arguments -/
+def pushTargets : List ReadTarget → Code
+  | [] => []
+  | .var x _ q :: rest => [(.varPath x, q), (.copyVarPathToA, q), (.pushByRef, q)] ++ pushTargets rest
+  | .elem a _ idx q :: rest =>
+    [(.arrPath a, q)] ++ compileIdx idx ++ [(.copyVarPathToA, q), (.pushByRef, q)] ++ pushTargets rest
+
+/-- READ: the write-backs (`generate_un_stash_by_ref_args`) -/
+def writeTargets : List ReadTarget → Code
+  | [] => []
+  | .var x _ q :: rest => [(.dequeue, q), (.varPath x, q), (.copyAToVarPath, q)] ++ writeTargets rest
+  | .elem _ _ _ q :: rest => [(.dequeuePath, q), (.copyAToVarPath, q)] ++ writeTargets rest
 
 def compileItem (p : Pos) : PrintItem → Code
   | .expr e => compileExpr e ++ [(.printValue, e.pos)]
@@ -103,10 +190,12 @@ def sizeStmt : SStmt → Nat
   | .seq a b => sizeStmt a + sizeStmt b
   | .comment => 0
   | .dim _ _ _ => 3
+  | .dimArr _ _ dims _ => 1 + sizeDims dims + 3
   | .assign _ t e _ => (compileExprTo e t).length + 2
+  | .assignElem _ t idx e _ => (compileExprTo e t).length + 1 + (compileIdx idx).length + 1
   | .print items _ => 3 + sizeItems items + 1
   | .data items _ => 1 + 2 * items.length + 3
-  | .read vars _ => if vars.isEmpty then 4 else 11 * vars.length
+  | .read tgs _ => 1 + (pushTargets tgs).length + 2 + tgs.length + 1 + (writeTargets tgs).length
   | .ifBlock c thn elifs hasElse els _ =>
     (compileExpr c).length + 1 + sizeStmt thn + 1 + sizeElifs elifs + (if hasElse then 1 + sizeStmt els else 0) + 1
   | .select e cases hasElse els _ =>
@@ -173,18 +262,21 @@ def compileStmt : String → Nat → SStmt → Code
   | sfx, off, .seq a b => compileStmt sfx off a ++ compileStmt sfx (off + sizeStmt a) b
   | sfx, _, .comment => []
   | sfx, _, .dim x t p => [(.allocate t, p), (.varPath x, p), (.copyAToVarPath, p)]
+  | sfx, _, .dimArr a t dims p =>
+    -- `generate_dim_name`, `DimType::Array`
+    [(.beginArgs, p)] ++ compileDims p dims ++ [(.allocArr t, p), (.arrPath a, p), (.copyAToVarPath, p)]
   | sfx, _, .assign x t e p => compileExprTo e t ++ storeVar x p
+  | sfx, _, .assignElem a t idx e p =>
+    -- `generate_assignment_instructions`: value (converted), then the path, then the store
+    compileExprTo e t ++ [(.arrPath a, p)] ++ compileIdx idx ++ [(.copyAToVarPath, p)]
   | sfx, _, .print items p =>
     [(.printSetPrinter, p), (.loadA (.int 0), p), (.printSetFormat, p)] ++ compileItems p items ++ [(.printEnd, p)]
   | sfx, _, .data items p =>
     [(.beginArgs, p)] ++ items.flatMap (fun (v, q) => [(.loadA v, q), (.pushByVal, q)]) ++
       [(.pushStack, p), (.builtInData, p), (.popStack, p)]
-  | sfx, _, .read vars p =>
-    -- `READ a, b` is generated as `READ a : READ b` (one built-in call per variable)
-    if vars.isEmpty then [(.beginArgs, p), (.pushStack, p), (.builtInRead, p), (.popStack, p)]
-    else vars.flatMap (fun (x, _, q) =>
-      [(.beginArgs, p), (.varPath x, q), (.copyVarPathToA, q), (.pushByRef, q), (.pushStack, p), (.builtInRead, p),
-       (.enqueue 0, q), (.popStack, p), (.dequeue, q), (.varPath x, q), (.copyAToVarPath, q)])
+  | sfx, _, .read tgs p =>
+    [(.beginArgs, p)] ++ pushTargets tgs ++ [(.pushStack, p), (.builtInRead, p)] ++
+      (tgs.zipIdx).map (fun (tg, i) => (.enqueue i, tg.pos)) ++ [(.popStack, p)] ++ writeTargets tgs
   | sfx, off, .ifBlock c thn elifs hasElse els p =>
     let nc := (compileExpr c).length
     let thnOff := off + nc + 1
@@ -284,8 +376,6 @@ def compileCases : String → Pos → Nat → Nat → Nat → Nat → SCases →
       compileStmt sfx bodyOff body ++ [(.jump endOff, p)] ++ compileCases sfx p endOff elseOff next (i + 1) rest
 end
 
-def maxPos : Pos := ⟨4294967295, 4294967295⟩
-
 /-- `move_data_statements_first`: top-level DATA statements are generated before everything else -/
 def topLevel : SStmt → List SStmt
   | .seq a b => topLevel a ++ topLevel b
@@ -311,41 +401,21 @@ def compile (prog : SProgram) : Code :=
 
 /-! ### normalisation of the real instruction list -/
 
-/-- exact value of an IEEE-754 bit pattern with `mbits` fraction bits and `ebits` exponent bits -/
-def ieeeToRat (mbits ebits : Nat) (bits : Nat) : Option Rat :=
-  let frac := bits % 2 ^ mbits
-  let exp := (bits / 2 ^ mbits) % 2 ^ ebits
-  let neg := (bits / 2 ^ (mbits + ebits)) % 2 == 1
-  let bias : Int := 2 ^ (ebits - 1) - 1
-  if exp == 2 ^ ebits - 1 then none
-  else
-    let (m, e) : Nat × Int :=
-      if exp == 0 then (frac, 1 - bias - mbits) else (2 ^ mbits + frac, (exp : Int) - bias - mbits)
-    let q : Rat := if e ≥ 0 then (m : Rat) * (2 : Rat) ^ e.toNat else (m : Rat) / (2 : Rat) ^ (-e).toNat
-    some (if neg then -q else q)
-
-def litToVal : Lit → Option Val
-  | .int i => some (.int i)
-  | .long i => some (.long i)
-  | .sgl b => (ieeeToRat 23 8 b).map .sgl
-  | .dbl b => (ieeeToRat 52 11 b).map .dbl
-  | .str cs => some (.str (cs.map Char.ofNat))
-  | .other _ => none
-
-def qualToTy : Qual → Ty
-  | .int => .int | .long => .long | .sgl => .sgl | .dbl => .dbl | .str => .str
-
-/-- slot of a resolved variable name (bare name compared case-insensitively) -/
-def slotOf (table : List (String × Ty)) (n : QName) : Option Nat :=
-  match n.q with
-  | none => none
-  | some q => table.findIdx? (fun e => e.1 == n.bare.map Char.toUpper && e.2 == qualToTy q)
+abbrev litToVal := _root_.RbModel.Core.litToVal
+abbrev qualToTy := _root_.RbModel.Core.qualToTy
+abbrev slotOf := _root_.RbModel.Core.slotOf
 
 def targetAddr : Target → Option Nat
   | .addr a => some a
   | .unresolved _ => none
 
-def normInstr (table : List (String × Ty)) : Instr → Option CInstr
+/-- `AllocateArrayIntoA(BuiltIn(q))` as serialised by `instr_sx::expr_type` -/
+def elemTy? : Sexp → Option Ty
+  | .list [.atom "builtin", q] => (Instr.qual? q).map qualToTy
+  | _ => none
+
+/-- `vars`: the scalar slot table, `arrs`: the array table (both: upper-cased bare name, qualifier) -/
+def normInstr (vars arrs : List (String × Ty)) : Instr → Option CInstr
   | .loadIntoA v => (litToVal v).map .loadA
   | .copyAToB => some .copyAToB | .copyAToC => some .copyAToC | .copyAToD => some .copyAToD
   | .copyCToB => some .copyCToB | .copyDToA => some .copyDToA | .copyDToB => some .copyDToB
@@ -357,7 +427,11 @@ def normInstr (table : List (String × Ty)) : Instr → Option CInstr
   | .negateA => some .negateA | .notA => some .notA
   | .cast q => some (.cast (qualToTy q))
   | .pushAToValueStack => some .pushA | .popValueStackIntoA => some .popA
-  | .varPathName n false => (slotOf table n).map .varPath
+  | .varPathName n false =>
+    match slotOf arrs n with
+    | some a => some (.arrPath a)
+    | none => (slotOf vars n).map .varPath
+  | .varPathIndex => some .pathIndex
   | .copyVarPathToA => some .copyVarPathToA | .popVarPath => some .popVarPath
   | .copyAToVarPath => some .copyAToVarPath
   | .label l => some (.label l)
@@ -367,6 +441,7 @@ def normInstr (table : List (String × Ty)) : Instr → Option CInstr
   | .throw e => if e == "ForLoopZeroStep" then some .throwZeroStep else none
   | .halt => some .halt
   | .allocateBuiltIn q => some (.allocate (qualToTy q))
+  | .allocateArrayIntoA t => (elemTy? t).map .allocArr
   | .printSetPrinterType p => if p == "print" then some .printSetPrinter else none
   | .printSetFormatStringFromA => some .printSetFormat
   | .printComma => some .printComma | .printSemicolon => some .printSemicolon
@@ -375,17 +450,24 @@ def normInstr (table : List (String × Ty)) : Instr → Option CInstr
   | .pushUnnamedByVal => some .pushByVal | .pushUnnamedByRef => some .pushByRef
   | .pushStack => some .pushStack | .popStack => some .popStack
   | .builtInSub n => if n == "Data" then some .builtInData else if n == "Read" then some .builtInRead else none
+  | .builtInFunction n =>
+    if n == "LBound" then some (.builtInBound false) else if n == "UBound" then some (.builtInBound true) else none
   | .enqueueToReturnStack i => some (.enqueue i)
   | .dequeueFromReturnStack => some .dequeue
+  | .dequeueFromReturnStackWithPath => some .dequeuePath
+  | .stashFunctionReturnValue n =>
+    if n.q == some .int && n.bare.map Char.toUpper == "LBOUND" then some (.stashBound false)
+    else if n.q == some .int && n.bare.map Char.toUpper == "UBOUND" then some (.stashBound true)
+    else none
+  | .unStashFunctionReturnValue => some .unStash
   | _ => none
 
-def normalise (table : List (String × Ty)) (code : Array InstrPos) : Option Code :=
-  code.toList.mapM fun ip => (normInstr table ip.instr).map fun c => (c, ⟨ip.row, ip.col⟩)
+def normalise (vars arrs : List (String × Ty)) (code : Array InstrPos) : Option Code :=
+  code.toList.mapM fun ip => (normInstr vars arrs ip.instr).map fun c => (c, ⟨ip.row, ip.col⟩)
 
-/-- index of the first position where two lists differ -/
 def firstDiff : Code → Code → Nat → Option Nat
   | [], [], _ => none
   | a :: as, b :: bs, i => if a = b then firstDiff as bs (i + 1) else some i
   | _, _, i => some i
 
-end RbModel.Core
+end RbModel.ArrL.Compile
